@@ -70,7 +70,9 @@ LEVEL_TEXT = ("Kernel-checked Lean theorems for ALL QoS values (every kind, ever
               "thousands of QoS pairs, and an independent Python statement of the DDS table checks the implementation output directly. Two "
               "genuine defects were found this way and repaired (liveliness lease compared lexicographically with the kind, D19; presentation "
               "flags compared with !=, D53); their pre-fix behaviour is kept as Lean regression witnesses. Topic-name, type and partition "
-              "matching are inline in process_discovered_readers/writers and are not part of this engine (partial).")
+              "matching are inline in process_discovered_readers/writers and are not part of this engine (partial). A third part replays "
+              "matched-set scenarios with set_qos steps (engine, model and set-based oracle of C16) so that 'both sides reach the same "
+              "verdict' is also judged after a QoS change of a matched endpoint.")
 LEVEL_NOTE = ("Trusted: Lean kernel; Model/Match.lean (the code's orderings as rank functions, Duration order lexicographic on (sec, nanosec)); "
               "cfg(dust_dds_verif) wrappers around the two private functions and hook constructors of the builtin-topic records; Python oracle. "
               "Assumes normalised durations. Partition / fnmatch matching, topic and type matching, and the status reporting of the "
